@@ -83,7 +83,7 @@ MUTANTS = [
          new="interval = z * ((p * (1 - p)) / (n + z**2)) ** 0.5"),
     dict(id="ac_half", props=["C18"], file=S, old="p_prime = 1 / n_prime * (est_succ + (1 / 2) * z**2)",
          new="p_prime = 1 / n_prime * (est_succ + (1 / 4) * z**2)"),
-    dict(id="unknown_method_wald", props=["C18"], file=S, old='elif method.lower() == "wald":', new="else:"),
+    dict(id="unknown_method_wald", props=["C18"], file=S, old='elif method.lower() == "wald":', new="elif True:"),
     dict(id="probit_noabs", props=["C18"], file=S, old="abs(log(alpha / (1 - alpha)))", new="-log(alpha / (1 - alpha))"),
     dict(id="ascii_again", props=["C12", "C15"], file=B, old='input_string.encode("utf-8")', new='input_string.encode("ascii")'),
     dict(id="cond_in_key", props=[], note="equivalent as written: conditional ids are still empty when the key is generated", file=G,
